@@ -35,7 +35,7 @@ RULE = (
 ASSUMPTIONS = ["record boundaries / tag and length positions come from the spec parser in vf/wire.py",
                "the reference decoder decides which wire-type mismatches count as 'kept as unknown field'"]
 
-NAMES = ["Scalars", "Optionals", "Repeats", "Maps", "Oneofs", "Wrappers", "Times", "Tags", "Rec", "Leaf"]
+NAMES = ["Scalars", "Optionals", "Repeats", "Maps", "Oneofs", "Wrappers", "Times", "Tags", "Rec", "Leaf", "Words", "Holder"]
 
 
 def type_ok(hint, v, depth=0) -> typing.Optional[str]:
@@ -80,6 +80,8 @@ def type_ok(hint, v, depth=0) -> typing.Optional[str]:
     if hint is _dt.timedelta:
         return None if isinstance(v, _dt.timedelta) else f"{type(v).__name__} instead of timedelta"
     if isinstance(hint, type) and issubclass(hint, betterproto.Enum):
+        if isinstance(v, betterproto.Enum) and not isinstance(v, hint):
+            return f"member of {type(v).__name__} instead of {hint.__name__}"  # (a bare int is accepted: the enum is open)
         return None if isinstance(v, int) and not isinstance(v, bool) else f"{type(v).__name__} instead of enum/int"
     if isinstance(hint, type) and issubclass(hint, betterproto.Message):
         if not isinstance(v, hint):
@@ -604,7 +606,43 @@ def targets(ctx):
 
     fuzz_names = ["Scalars", "Optionals", "Repeats", "Maps", "Oneofs", "Wrappers", "Times", "Tags", "Rec", "Leaf", "Mixed"]
 
+    # ---- payloads beyond 64 KiB: a cut far behind the start of a length-delimited payload
+    def big_cases():
+        for kind in ("bytes", "string", "nested", "packed"):
+            for n in (65536 + 17, 70000, 131072 + 5):
+                yield {"big": kind, "n": n}
+
+    def big_ev(case):
+        kind, n = case["big"], case["n"]
+        if kind == "bytes":
+            name, tree = "Scalars", {"f_int32": 5, "f_bytes": b"\x07" * n, "f_bool": True}
+        elif kind == "string":
+            name, tree = "Scalars", {"f_int32": 5, "f_string": "s" * n, "f_bool": True}
+        elif kind == "nested":
+            name, tree = "Scalars", {"f_int32": 5, "f_leaf": {"i": 1, "s": "n" * n}, "f_bool": True}
+        else:
+            name, tree = "Repeats", {"r_int32": [1], "r_fixed64": [9] * (n // 8), "r_string": ["z"]}
+        mi = schema.msg(f"ks.{name}")
+        data = to_ref(schema, c.ref, mi.full_name, tree).SerializeToString(deterministic=True)
+        bounds = set(wire.record_boundaries(data))
+        cuts = sorted({len(data) - d for d in (1, 2, 3, 5, 9, 100)} | {65535, 65536, 65537, 65600, 66000, len(data) // 2, len(data) - 4097} | set(range(4096, len(data), 8192)))
+        fails, seen, nt = [], set(), 0
+        for cut in cuts:
+            if not (0 < cut < len(data)) or cut in bounds:
+                continue
+            nt += 1
+            for entry in ("parse", "load"):
+                status, res = decode(name, data[:cut], entry)
+                if status == "ok":
+                    sig = f"trunc|truncated_record_accepted|big_{kind}|{entry}"
+                    if sig not in seen:
+                        seen.add(sig)
+                        fails.append(Failure("truncated_record_accepted", sig, f"{kind} payload of {n} bytes cut at {cut}/{len(data)} was decoded: {known_snapshot(name, res)!r:.160}", case=dict(case)))
+        return Eval(fails, weight=max(1, nt), nontrivial_count=nt, labels=[f"big_payload:{kind}"])
+
     return [
+        Target("big_payload_truncation", big_ev, cases=big_cases, exhaustive=True,
+               rule="bytes / string / nested / packed payloads of 64 KiB+17, 70000 and 128 KiB+5 bytes cut behind the first 64 KiB, every 8 KiB and near the end: must be rejected"),
         Target("atheris_parse_campaign", fuzz_ev, cases=fuzz_cases, exhaustive=False, shard_cases=False, quick=10**9, thorough=10**9, time_thorough=3000),
         Target("truncation_all_cuts", trunc_ev, strategy=valued(), quick=100, thorough=2000, time_quick=60),
         Target("structured_faults", fault_ev, poison=_poison_fn, strategy=faulted(), quick=700, thorough=8000, time_quick=60),
